@@ -81,6 +81,8 @@ type batch struct {
 	InitialStall time.Duration // the consumer starts accepting only after this long (fills the hand-over channel)
 	EarlyClose  bool          // the listener is closed while connections are still in flight
 	CloseAfter  time.Duration
+	// NoConsumer: nobody calls Accept before the listener is closed (more connections pend than the hand-over channel holds)
+	NoConsumer bool
 }
 
 func (cp connPlan) stream() []byte {
@@ -129,6 +131,15 @@ func genBatch(t *rapid.T) batch {
 		b.EarlyClose = true
 		b.CloseAfter = time.Duration(rapid.IntRange(0, 60).Draw(t, "closeAfterMs")) * time.Millisecond
 	}
+	if rapid.IntRange(0, 5).Draw(t, "noConsumer") == 0 {
+		// a backlog larger than the hand-over channel, nobody accepting, then Close
+		b.NoConsumer, b.EarlyClose, b.CloseAfter = true, true, time.Duration(rapid.IntRange(40, 120).Draw(t, "closeAfterMs2"))*time.Millisecond
+		for len(b.Conns) < runtime.GOMAXPROCS(0)+rapid.IntRange(2, 8).Draw(t, "surplus") {
+			ki := []int{3, 4, 6, 7}[rapid.IntRange(0, 3).Draw(t, "fallKind")] // fall-through kinds
+			k := kinds[ki]
+			b.Conns = append(b.Conns, connPlan{Kind: ki, Size: max(k.depth, k.take+5, 1) + 10, Tag: rapid.Uint64().Draw(t, "tag2")})
+		}
+	}
 	return b
 }
 
@@ -169,6 +180,9 @@ func runBatch(t hx.TB, b batch) {
 	go func() {
 		defer close(acceptDone)
 		time.Sleep(b.InitialStall)
+		if b.NoConsumer {
+			time.Sleep(b.CloseAfter + 150*time.Millisecond) // first Accept only after the listener has been closed
+		}
 		for {
 			c, err := ln.Accept()
 			if err != nil {
@@ -375,6 +389,9 @@ func runBatch(t hx.TB, b batch) {
 	if b.InitialStall > 0 {
 		cl = append(cl, "C13/slow-consumer")
 	}
+	if b.NoConsumer {
+		cl = append(cl, "C13/no-consumer-until-close")
+	}
 	hx.Class("C13/connections", int64(len(b.Conns)))
 	hx.Class("C13/delivered", int64(delivered))
 	hx.Case(hx.Hash(describe(b)), nontrivial, cl...)
@@ -400,7 +417,7 @@ func isTimeout(err error) bool {
 
 func describe(b batch) string {
 	var sb strings.Builder
-	fmt.Fprintf(&sb, "accept delay %v, initial stall %v, early close %v after %v; connections:", b.AcceptDelay, b.InitialStall, b.EarlyClose, b.CloseAfter)
+	fmt.Fprintf(&sb, "accept delay %v, initial stall %v, early close %v after %v, no consumer until close %v; connections:", b.AcceptDelay, b.InitialStall, b.EarlyClose, b.CloseAfter, b.NoConsumer)
 	for i, cp := range b.Conns {
 		fmt.Fprintf(&sb, " #%d %s(%dB,cuts%v)", i, kinds[cp.Kind].name, cp.Size, cp.Cuts)
 	}
